@@ -56,6 +56,21 @@ HeaderUnique ==
             IN  ~(P.ok /\ P.cpe = "named" /\ P.oid = OidBody(P256) /\ PointForm(P.point, 32) = "uncompressed")
 ASSUME HeaderLemma /\ HeaderPerCurve
 
+\* text representations of a PEM file: CRLF line ends / blank lines / trailing blanks are the same text,
+\* any changed, dropped or added visible character is not
+CrLf(t) == LET n == Len(t) IN SubSeq([j \in 1..(2 * n) |-> IF (j % 2) = 1 THEN (IF t[(j + 1) \div 2] = 10 THEN 13 ELSE 32) ELSE t[j \div 2]], 1, 2 * n)
+PemTextLemma ==
+    \A kind \in DOMAIN PemLabel : \A n \in {1, 2, 3, 47, 48, 49, 100} :
+        LET t == EncodePEM(kind, Ramp(n)) IN
+        /\ SameText(CrLf(t), t)
+        /\ SameText(<<10, 32, 10>> \o t \o <<13, 10, 9, 10>>, t)
+        /\ SameText(SubSeq(t, 1, Len(t) - 1), t)
+        /\ ~SameText(SubSeq(t, 1, Len(t) - 2), t)
+        /\ ~SameText(Tail(t), t)
+        /\ ~SameText([t EXCEPT ![40] = IF t[40] = 65 THEN 66 ELSE 65], t)
+        /\ Len(CrLf(t)) = 2 * Len(t)
+ASSUME PemTextLemma
+
 \* ---- toy keys
 ToyArcs == <<1, 3, 132, 0, 6>>
 ToyPriv == <<7>>
